@@ -1,10 +1,13 @@
 (* Tie B for C13: compare the model of BondPercolation / SitePercolation with what the
-   implementation did (recorded by a sample() override that calls the public queries). *)
+   implementation did (recorded by a sample() override that calls the public queries).
+   A case is a history of runs of ONE experiment object (the prototype network may be edited in
+   place, or replaced, between runs); every run is compared with the model on the network as it
+   is at that run (setUp rebuilds all percolation state, so runs are independent in the model). *)
 From Coq Require Import List ZArith QArith Bool Arith.
 From EpyV Require Import Lib.Prelude Model.Percolate Model.NewmanZiff.
 Import ListNotations.
 
-Record case_t := {
+Record run_t := {
   c_site : bool;                 (* SitePercolation (true) or BondPercolation (false) *)
   c_nodes : list nat;            (* nodes of the working copy before do() touches it, in order *)
   c_edges : list nedge;          (* its edges, in g.edges() order (what bond percolation shuffles) *)
@@ -33,7 +36,7 @@ Definition obs_eqb (m o : obs) : bool :=
 
 Definition series_eqb (a b : Q * Z) : bool := Qeq_bool (fst a) (fst b) && Z.eqb (snd a) (snd b).
 
-Definition check_case (c : case_t) : bool :=
+Definition check_run (c : run_t) : bool :=
   negb (o_raised c) &&
   if c_site c then
     let ns := apply_perm 0%nat (c_nodes c) (c_perm c) in
@@ -49,3 +52,6 @@ Definition check_case (c : case_t) : bool :=
     && list_eqb obs_eqb os (o_samples c)
     && list_eqb series_eqb (series os) (o_series c)
     && list_eqb npair_eqb (firstn n es) (o_ev_edges c).
+
+Definition case_t := list run_t.
+Definition check_case (c : case_t) : bool := forallb check_run c.
